@@ -1,11 +1,12 @@
 import StrettoModel.Proofs.Policy
+import StrettoModel.Proofs.Termination
 /-!
 # C07 — Admission and eviction follow the TinyLFU / sampled-LFU rule
 
 Quantification: every charged set `l` (keys distinct, `used` = sum of charges, any `maxCost`, also
 over-budget states), every estimate function `est`, every incoming `(key, cost)`, and every
 sequence `refills` of what `fill_sample` appends at each iteration (i.e. every `HashMap` iteration
-order). The theorems hold for *every* iteration the loop performs.
+order). The theorems hold for *every* iteration the loop performs; `loop_terminates` bounds their number.
 -/
 namespace Stretto.C07
 open Stretto
@@ -82,6 +83,18 @@ theorem victim_is_first_minimum (est : Nat → Int) (s : List (Nat × Int)) (i :
     s[i]? = some q ∧ h = est q.1 ∧ ∀ p ∈ s, h ≤ est p.1 :=
   minEntry_spec est s i q h hm
 
+/-- **loop_terminates**: "evicted one at a time only while room is still lacking" is a loop without an
+explicit bound in the code. Offered `#charged · samples + 1` iterations whose refills are what
+`fill_sample` may produce (`RefillsOk`), `policy.add` finishes — admitted or rejected — without using
+them up: each iteration that continues either releases a charged key or discards a stale duplicate of a
+key it released earlier, and refills only ever add charged keys. -/
+theorem loop_terminates (l : Lfu) (est : Nat → Int) (key : Nat) (cost : Int)
+    (refills : List (List (Nat × Int))) (hinv : l.Inv)
+    (hok : RefillsOk est (est key) cost l [] refills)
+    (hmany : l.costs.length * l.samples < refills.length) :
+    (policyAdd l est key cost refills).stuck = false :=
+  policyAdd_terminates l est key cost refills hinv hok hmany
+
 -- non-vacuity -------------------------------------------------------------------------------
 /-- a concrete over-budget admission: three residents, newcomer needs two victims -/
 def exLfu : Lfu := { costs := [(1, 4), (2, 4), (3, 4)], used := 12, maxCost := 12, samples := 5 }
@@ -102,3 +115,4 @@ end Stretto.C07
 #print axioms Stretto.C07.victims_released
 #print axioms Stretto.C07.refill_size
 #print axioms Stretto.C07.victim_is_first_minimum
+#print axioms Stretto.C07.loop_terminates
